@@ -25,7 +25,7 @@ from . import common
 ID = "C17"
 RULE = ("seed envelopes from the description generator (reference encoder, both CWT payload forms) and the byte strings "
         "of tests/test_cbor_out_of_spec.py; for every node of the expanded tree (bstr-wrapped CBOR is expanded; quick tier: at most 300 sampled nodes per seed) "
-        "replacement by k of 41 type representatives (quick k=4, thorough all), inflated length fields, plain "
+        "replacement by k of 45 type representatives (incl. big VALUES: 4 KiB bignums, 16 KiB strings, always under tracemalloc) (quick k=4, thorough all), inflated length fields, plain "
         "array/map/tag nesting 1..500 and bstr-wrapped try-each/run-sequence nesting 1..64,100,200,300,1000; 13 wide "
         "families (one element kind repeated n and 4n times: step growth and CPU-time growth); byte "
         "level: truncations (all positions for inputs <= 400 B, else 200), edits biased to header bytes, splices; "
@@ -219,7 +219,7 @@ def run_shard(rec, shard, nshards):
                 for name, rep in reps:
                     data = Hx.encode(Hx.replace(tree, idx, rep))
                     ncase += 1
-                    parse_one(rec, data, "type:" + name, sid, sample_mem=(ncase % 10 == 0))
+                    parse_one(rec, data, "type:" + name, sid, sample_mem=(ncase % 10 == 0 or name.startswith("big-")))
                     if ncase % 97 == 0:
                         file_route(rec, data, r)
                 if r.random() < 0.35:
